@@ -291,21 +291,24 @@ CHECKS = {
 
 # Building blocks integrated after the first build (builder sessions): sentences appended to level_claimed.text / technique.
 EXTRA = {
- "C01": dict(text=" Over Verif.Model.BqCount (faithful model of block_quote_count_helper.count_block_quote_starts and its helpers, arbitrary stack / flags, explicit IndexError / "
+ "C01": dict(text=" Function-level building blocks: Verif.Props.LinkRecog link_recognisers_total / lrd_total (destination, title, label, inline body, backslash and character-reference handlers, link reference definition parse: no IndexError / assert, returned index in range, progress), Verif.Props.InlineRecog inline_recognisers_total_partial, tag_scanners_total, fuel_sufficient (raw HTML, autolinks, character references, escapes, code spans) with excluded-point witnesses that are real crashes (F-TOK-CHARREF-RANGE, F-TOK-EMPTY-COMMENT, F-TOK-STARTTAG-SLASH), Verif.Props.Emphasis resolve_total_partial, fuel_sufficient_partial, fuel_monotone. Ties: real functions vs models on all strings <= 6 over per-function alphabets (42 M + 56 M requests thorough) and 2.6 M emphasis requests. Over Verif.Model.BqCount (faithful model of block_quote_count_helper.count_block_quote_starts and its helpers, arbitrary stack / flags, explicit IndexError / "
                   "AssertionError / divergence): loop_fuel_mono, count_terminates (the fuel len+2 is never exhausted when the start index is inside the line), count_diverges (outside the line the "
                   "real loop hangs: witness), count_total and count_bounds (list-free stack, caller's guard). Tie: real function vs model on all strings <= 7 over {>, space, tab, a, -} x start index x 16 stack "
                   "configurations (3.4 M calls thorough)."),
- "C02": dict(text=" Over Verif.Model.Coalesce (faithful model of coalesce_text_blocks, TextMarkdownToken.combine / remove_final_whitespace, both modes): merge_preserves_content, "
+ "C02": dict(text=" Function-level building blocks: Verif.Props.LinkRecog inline_body_reassembly, dest/title/label/lrd_pieces_reassembly, rehydrate_lossless_partial with rehydrate_excluded (F-RT-EMPTY-TITLE); Verif.Props.InlineRecog angle/rawhtml/charref/backslash/codespan_reassembly, codespan_text_roundtrip; Verif.Props.Emphasis resolve_conservation, resolve_plains_preserved, resolve_lossless_partial. Over Verif.Model.Coalesce (faithful model of coalesce_text_blocks, TextMarkdownToken.combine / remove_final_whitespace, both modes): merge_preserves_content, "
                   "coalesce_preserves_content (flatten unchanged; hypotheses with witnesses content_excluded_final / _tab), coalesceOnly_preserves_text, coalesce_preserves_nonText, coalesce_marks_spec, "
                   "coalesce_error_iff. Tie: spy on the real pass during real parses + synthetic lists of real token objects (590 k cases thorough)."),
- "C03": dict(text=" Over Verif.Model.BqCount: count_eq_spec (the faithful marker count = an independent recursive specification), specStack_eq_specCM / count_eq_commonmark_partial (= the CommonMark "
+ "C03": dict(text=" Function-level building blocks: Verif.Props.LinkRecog dest_angle_spec, dest_raw_spec, title_quote_spec, title_paren_spec, label_spec (pymarkdown's recognisers = LeanMark's specification scanners on stated inputs, *_differs witnesses outside), unescape_value, normalize_spec; Verif.Props.InlineRecog backslash_spec, uri_spec_partial, email_spec + email_regex_is_model, charref_spec_partial, open_tag_is_lenient_automaton, rawhtml_spec_partial, codespan_spec_partial; Verif.Props.Emphasis flanking / can_open / can_close / rule_of_3 = the CommonMark sentences, rule_of_3_deviation (F-C03-RULE3-REMAINING); Verif.Props.GfmRender (faithful model of TransformToGfm, every HTML handler and list looseness): render_total, render_balanced, render_escapes, looseness_spec_partial (= the CommonMark definition on the token tree, 7 excluded streams), paragraph_tightness_partial. Tie: byte-exact HTML and is_loose flags on 46 k real documents, 365 k synthetic well-formed and 101 k ill-formed streams. Over Verif.Model.BqCount: count_eq_spec (the faithful marker count = an independent recursive specification), specStack_eq_specCM / count_eq_commonmark_partial (= the CommonMark "
                   "block-quote-marker definition under the stated hypothesis; witness commonmark_excluded '>  >')."),
- "C04": dict(text=" Over Verif.Model.Coalesce: coalesce_preserves_wf (WellNested and ClassOK of the stream survive the coalesce pass; blank_in_code_is_rejected shows the pass repairs the block-pass stream), "
+ "C04": dict(text=" Function-level building blocks: Verif.Props.Emphasis resolve_wellNested (emphasis start/end tokens balanced and properly nested for every delimiter list, every policy), resolve_specials_ordered; Verif.Props.GfmRender render_run / render_balanced (the generator's own stack discipline on well-formed streams; explicit IndexError / AssertionError results on ill-formed ones). Over Verif.Model.Coalesce: coalesce_preserves_wf (WellNested and ClassOK of the stream survive the coalesce pass; blank_in_code_is_rejected shows the pass repairs the block-pass stream), "
                   "coalesce_no_adjacent_text, coalesce_no_blank_in_code."),
  "C05": dict(text=" Over Verif.Model.LeafPos (faithful model of PositionMarker / index_indent / realize_leading_whitespace and the position each leaf processor assigns): atx_pos_true, thematic_pos_true, "
                   "fence_pos_true, setext_pos_true, paragraph_pos_true, indented_pos_true_partial (+ indented_pos_excluded = F-ICODE-BLANK-IN-LIST), leafView_spec, opener_is_source_char, atx_pos_source "
                   "— for all lines, all container indents: the column points at the element's own opening character of the tab-expanded line and lies within it. Over Verif.Model.Coalesce: "
                   "merged_position_first. Tie: real tokens of all strings <= 6 over each recogniser alphabet at top level and <= 5 behind '> ', '- ', '1. ', '   ' (526 k documents thorough)."),
+ "C06": dict(text=" Function-level building block Verif.Props.TokenRules: md001/004/035/048/038/039_scan_iff (faithful scan = the documented sentence), md001/004/035/048_faithful_eq_spec (= the reference conditions of Verif.Model.RuleSpec), mdX_scan_reads."),
+ "C08": dict(text=" Function-level building block Verif.Props.TokenRules: mdX_fix_only_style for MD001 MD004 MD029 MD035 MD048 MD019 MD021 MD038 MD039 — token count, order, kinds and every field other than the named style field unchanged (md001_fix_eq_clamp: exactly previous level + 1); md038_fix_empties_span is the proved counter-example (F-MD038-ONE-SPACE)."),
+ "C09": dict(text=" Function-level building block Verif.Props.TokenRules: H1 (mdX_fix_removes_trigger) and mdX_fix_idempotent for eight token fixers, proved false for MD038 (md038_fix_keeps_trigger); H2 as the 28-pair inertness table with counter-examples md001_md019_interference, md029_md030_interference; bundleA/B_fix_removes_triggers (joint level-1 pass). Tie: real rule classes through a real PluginManager on real and synthetic token streams (1.3 M comparisons thorough)."),
 }
 
 def main():
